@@ -69,6 +69,7 @@ class Gen:
         self.param = None          # type of `$` (None at top level)
         self.self_fn = None        # ("fn", p, r) of the function being defined, for `^`
         self.budget = rng.choice([25, 40, 60, 90, 140])      # expression nodes per program
+        self.bound_labels = set()  # label names already bound as variables by a `(x)` / `*` pattern
 
     # ------------------------------------------------------------------ helpers
     def note(self, k):
@@ -115,6 +116,14 @@ class Gen:
                 seen.add(x)
                 out.append((x, t))
         return out
+
+    @staticmethod
+    def matched_on(x, text):
+        """was `x` (or a field of it) used as the subject of a match so far?  Re-binding a name
+        with a recorded narrowing is the known finding F53c02: such names are not re-bound."""
+        import re
+        return re.search(r"(?<![\w.])" + re.escape(x) + r"(?:\.\w+)*\s*(?:\{|=[^>=\s])", text) is not None \
+            or re.search(r"&" + re.escape(x) + r"\b", text) is not None
 
     def scalar_vars(self, env):
         return [(x, t) for x, t in self.lookup_latest(env) if t in (INT, BIN, STR)]
@@ -388,15 +397,20 @@ class Gen:
             sel = r.sample(list(t[2]), r.randint(1, len(t[2])))
             parts = []
             for l, ft in sel:
-                if r.random() < 0.5:
+                # binding the label's own name a second time would re-bind a name that may carry a
+                # recorded narrowing (known finding F53c02): only the first time per program
+                if r.random() < 0.5 and l not in self.bound_labels:
+                    self.bound_labels.add(l)
                     env_out.append((l, ft)); parts.append(l)
                 else:
                     parts.append(l + ": " + self.pattern(ft, env_out, succeed, depth + 1, pins, star, simple=True))
             name = t[1] if (t[1] and r.random() < 0.6) else ""
             self.note("partial_pattern")
             return name + "(" + ", ".join(parts) + ")"
-        if star and all(labels) and len(set(labels)) == len(labels) and t[2] and k < 0.55:
+        if star and all(labels) and len(set(labels)) == len(labels) and t[2] and k < 0.55 \
+                and not (set(labels) & self.bound_labels):
             for l, ft in t[2]:
+                self.bound_labels.add(l)
                 env_out.append((l, ft))
             self.note("star_pattern")
             if named_star and not t[1]:
@@ -567,7 +581,9 @@ class Gen:
                 env.insert(0, (x, t))
             elif k < 0.42 and env:
                 # rebinding an existing name (closures defined earlier keep the old value)
-                vis = [(x, t) for x, t in self.lookup_latest(env) if not (isinstance(t, tuple) and t[0] == "fn")]
+                text = ",\n".join(steps)
+                vis = [(x, t) for x, t in self.lookup_latest(env)
+                       if not (isinstance(t, tuple) and t[0] == "fn") and not self.matched_on(x, text)]
                 if vis:
                     x, _ = r.choice(vis)
                     t = self.rand_type()
